@@ -43,6 +43,9 @@ Definition mm_decls (c : dcase) : bool :=
   end.
 
 (* the model's verdict on the context: decls_wf is false although the package compiled, or true although it did not *)
-Definition model_wf (c : dcase) : bool := let '(ctx, fl, _, _) := c in decls_wf fl ctx.
+(* the verdict on the package of the case (another package of the context may be ill-formed on its own) *)
+Definition model_wf (c : dcase) : bool :=
+  let '(ctx, fl, pkg, _) := c in
+  match locate ctx pkg with Some s => report_ok (report fl ctx s) | None => decls_wf fl ctx end.
 Definition model_run_err (c : dcase) : bool :=
   let '(ctx, fl, _, _) := c in match go_run fl ctx with Ok _ => false | _ => true end.
